@@ -131,7 +131,7 @@ structure Out where
   forwards : List (Nat × Bytes)
   deriving Repr
 
-def emptyHdr : Header := ⟨0, false, 0, false, false, false, false, false, false, 0⟩
+def emptyHdr : Header := ⟨0, false, 0, false, false, false, false, false, false, 0, false⟩
 
 /-- `makeEmptyRespM(m, rcode)` -/
 def makeEmptyRespM (m : Msg) (rcode : Nat) : Msg :=
